@@ -296,7 +296,8 @@ def interpolate_bad_channels(
         weights[bad_channels] = 0
         weights[weights < 0.005] = 0
         weights = weights / gp.sum(weights)
-        imult = gp.where(weights > 0.005)[0]
+        # the small weights were already discarded above: keep all remaining ones so that they sum to one
+        imult = gp.where(weights > 0)[0]
         if imult.size == 0:
             data[i, :] = 0
             continue
